@@ -29,6 +29,7 @@ type Spec struct {
 	ID             string   `json:"id"`
 	FaultK         int      `json:"fault_k"`
 	FailAfterClose bool     `json:"fail_after_close"`
+	FailFrom       bool     `json:"fail_from,omitempty"` // a dead connection: EVERY connection operation from the k-th on fails
 	ConnParams     bool     `json:"conn_params"`
 	CloseAtEnd     bool     `json:"close_at_end"`
 	Actions        []Action `json:"actions"`
@@ -151,6 +152,7 @@ func Exec(spec *Spec) *Trace {
 		params = map[string]interface{}{"token": "t0k", "n": 1}
 	}
 	s := NewSched(spec.FaultK, spec.FailAfterClose, params)
+	s.FailFrom = spec.FailFrom
 	defer s.Detach()
 	tr := &Trace{Spec: spec}
 	calls := map[string]*CallResult{}
@@ -165,7 +167,10 @@ func Exec(spec *Spec) *Trace {
 	}
 	markEnds := func() {
 		for _, c := range tr.Calls {
-			if c.Done && c.Err == "" && c.Panic == "" {
+			// Close ends every subscription whether or not it also reports an error (a failed
+			// complete or close frame does not keep it from returning); Unsubscribe ends its
+			// subscription when it returns nil
+			if c.Done && c.Panic == "" && (c.Err == "" || c.Kind == "Close") {
 				switch c.Kind {
 				case "Unsubscribe":
 					if c.Arg < len(tr.Subs) && tr.Subs[c.Arg].Ended == "" {
@@ -784,6 +789,9 @@ func GenSpec(r *core.Rng, id int, maxSubs, maxSrv, length int) *Spec {
 		sp.FaultK = 1 + r.Intn(12)
 	}
 	sp.FailAfterClose = r.Chance(0.15)
+	if sp.FaultK > 3 && r.Chance(0.3) {
+		sp.FailFrom = true
+	}
 	acts := []Action{{Op: "call", Kind: "Start", T: "start"}, {Op: "step", T: "start"}, {Op: "step", T: "start"}}
 	if r.Chance(0.2) {
 		acts = append(acts, Action{Op: "server", Frame: &SrvFrame{Type: r.Pick([]string{"ping", "ping", "garbage"}), Sub: -1}}, Action{Op: "step", T: "start"})
